@@ -52,7 +52,13 @@ def _get_sched():
 
 HARNESSES = {
     # name: dict(pipeline, values..., mode, steps, seed, hooks)
-    "det3":      dict(pipe="det", mode="product", a=[1, 2, 3], steps=1, seed=None, hooks=True),
+    # (value lists are deliberately NOT ascending: labels must follow the declared order of the runs)
+    "det3":      dict(pipe="det", mode="product", a=[3, 1, 2], steps=1, seed=None, hooks=True),
+    # a model that is disabled in the configuration, switched on by the sweep
+    "enflag":    dict(pipe="enflag", mode="product", a=[2, 1], en=[False, True], steps=1, seed=None, hooks=False),
+    # an input file given relative to the observation's working directory
+    "wdfile":    dict(pipe="wdfile", mode="product", a=[2.0, 1.0], steps=1, seed=None, hooks=False),
+    "enstruct":  dict(pipe="enstruct", mode="product", a=[2, 1], en=[False, True], steps=1, seed=None, hooks=False),
     "det2x2":    dict(pipe="det", mode="product", a=[1, 2], b=[10, 20], steps=1, seed=None, hooks=True),
     "det3s2":    dict(pipe="det", mode="product", a=[1, 2, 3], steps=2, seed=None, hooks=True),
     "state3":    dict(pipe="stateful", mode="product", a=[1, 2, 3], steps=2, seed=None, hooks=True),
@@ -125,6 +131,19 @@ def build(h, with_dask, tmp):
     elif h["pipe"] == "modelseed":
         groups = {"charge_collection": [("props.c07_parallel.noisy_modelseed", "nz", {"a": 0.0, "seed": 7})]}
         ka, kb = "pipeline.charge_collection.nz.arguments.a", "pipeline.charge_collection.nz.arguments.seed"
+    elif h["pipe"] == "wdfile":
+        np.save(os.path.join(tmp, "input_image.npy"), np.arange(6, dtype=float).reshape(2, 3) + 1.0 + s)
+        groups = {"photon_collection": [("pyxel.models.photon_collection.load_image", "load_image",
+                                         {"image_file": "input_image.npy", "multiplier": 1.0})]}
+        ka, kb = "pipeline.photon_collection.load_image.arguments.multiplier", None
+    elif h["pipe"] in ("enflag", "enstruct"):
+        # enflag: the switched-on model rewrites buckets the first model already initialised (same result structure in
+        # every run); enstruct: it initialises ANOTHER bucket (signal), so the runs differ in structure
+        slot2 = 0 if h["pipe"] == "enflag" else 1
+        groups = {"photon_collection": [("vp.cprobes.enc", "p1", {"slot": 0, "a": 0.25, "b": 0.5, "v": [1.0]})],
+                  "charge_generation": [("vp.cprobes.enc", "p2", {"slot": slot2, "a": 0.75, "b": 0.5, "v": [2.0]}, False)]}
+        ka, kb = "pipeline.photon_collection.p1.arguments.a", "pipeline.photon_collection.p1.arguments.b"
+        ken = "pipeline.charge_generation.p2.enabled"
     elif h["pipe"] == "collide":
         groups = {"photon_collection": [("vp.cprobes.enc", "p1", {"slot": 0, "a": 0.25, "b": 0.5, "v": [1.0]})],
                   "charge_generation": [("vp.cprobes.enc", "p2", {"slot": 1, "a": 0.75, "b": 0.5, "v": [2.0]})]}
@@ -155,6 +174,8 @@ def build(h, with_dask, tmp):
             params.append(ParameterValues(key=kb, values=[x + s for x in h["b"]]))
         if "c" in h:
             params.append(ParameterValues(key=kc, values=[x + s for x in h["c"]]))
+        if "en" in h:
+            params.append(ParameterValues(key=ken, values=list(h["en"])))
     outputs = None
     if h.get("outputs"):
         outputs = ObservationOutputs(output_folder=os.path.join(tmp, "out_par" if with_dask else "out_seq"),
@@ -163,6 +184,8 @@ def build(h, with_dask, tmp):
     times = [float(i + 1) for i in range(h["steps"])]
     # (sweeps of the readout times start from a readout with a non-zero start time: it must survive the sweep)
     ro = mk.readout(times, start_time=0.25) if "rtimes" in h else mk.readout(times)
+    if h["pipe"] == "wdfile":
+        kw["working_directory"] = tmp
     obs = Observation(parameters=params, mode=h["mode"], readout=ro, with_dask=with_dask,
                       pipeline_seed=h["seed"], outputs=outputs, **kw)
     return obs, det, pipe
@@ -356,7 +379,7 @@ def plan(tier):
                 ("noisy3", 2, 1), ("noisy2", 2, 2), ("mseed3", 2, 1), ("files3", 2, 1),
                 ("atomic4", 4, 0), ("atomicn3", 3, 0), ("atomicf3", 3, 0), ("det3", 1, 0), ("det3", 3, 1),
                 ("files2x3", 2, 0), ("files3x2", 3, 0), ("rtimes3", 2, 1), ("rtimes3n", 3, 1), ("collide", 2, 0),
-                ("collideS", 2, 0), ("customv", 2, 0)]
+                ("collideS", 2, 0), ("customv", 2, 0), ("enflag", 2, 0)]
     return [("det3", 2, 2), ("det2x2", 2, 2), ("det3s2", 2, 2), ("state3", 2, 2), ("seq", 2, 2), ("custom3", 2, 2),
             ("noisy3", 2, 2), ("noisy2", 2, 3), ("mseed3", 2, 2), ("files3", 2, 2), ("det3", 3, 2), ("noisy3", 3, 2),
             ("atomic4", 4, 0), ("atomic4", 2, 0), ("atomicn3", 3, 0), ("atomicf3", 3, 0), ("det3", 1, 0),
@@ -371,7 +394,7 @@ def shards(tier, seed):
         nsplit = 1 if bound == 0 else (6 if tier == "quick" else 14)
         for i in range(nsplit):
             out.append({"part": "sched", "h": hname, "k": k, "bound": bound, "i": i, "of": nsplit, "seed": seed})
-    for hname in ("det3", "state3", "seq", "custom3", "noisy3", "mseed3", "rtimes3n", "collide"):
+    for hname in ("det3", "state3", "seq", "custom3", "noisy3", "mseed3", "rtimes3n", "collide", "enflag", "enstruct", "wdfile"):
         out.append({"part": "free", "h": hname, "seed": seed, "tier": tier})
     out.append({"part": "calib", "seed": seed, "tier": tier})
     for name in BFE:
@@ -508,22 +531,24 @@ def run_free(shard):
     ref, _ = run_sequential(HARNESSES[hname])
     viol, n = [], 0
     configs = [("synchronous", None), ("threads", 2), ("threads", 4), ("threads", 16)]
-    if hname == "det3":
+    if hname in ("det3", "enflag", "wdfile"):
         configs.append(("processes", 2))
     reps = 3 if shard.get("tier") == "quick" else 10
     outcomes = set()
     for sch, nw in configs:
         for r in range(reps if sch == "threads" else 1):
             n += 1
+            raised = False
             try:
                 got = run_free_once(hname, sch, nw)
                 msgs = diff_results(ref, got)
             except Exception as e:  # noqa: BLE001
                 msgs = [f"raised {type(e).__name__}: {e}"]
                 got = {"error": str(e)}
+                raised = True
             outcomes.add(hashlib.sha1(json.dumps(got, sort_keys=True).encode()).hexdigest()[:12])
             if msgs:
-                code = "structure" if any("structure" in m or "missing" in m for m in msgs) else "values"
+                code = "raised" if raised else ("structure" if any("structure" in m or "missing" in m for m in msgs) else "values")
                 hh = HARNESSES[hname]
                 key = {"part": "free", "pipeline": hh["pipe"], "mode": hh["mode"], "scheduler": sch, "code": code}
                 viol.append({"key": key, "what": f"[{hname}] free-running {sch}({nw}) differs from sequential: {msgs[:3]}",
